@@ -1149,7 +1149,14 @@ func rulePassesWalkWholeEnvironment(c *core.Ctx) {
 				o := identObj(info, root)
 				key := d.Name.Name + "/" + nm + "(" + types.ExprString(root) + ")"
 				// env.Namespaces[i] inside a loop that runs i over every index of env.Namespaces
-				if ix, isIx := root.(*ast.IndexExpr); isIx {
+				ixRoot := root
+				if id, isID := root.(*ast.Ident); isID && o != nil && o != env && !nsVars[o] {
+					// `ns := env.Namespaces[i]` defined once, inside such a loop
+					if r := singleDefRHS(info, d.Body, id); r != ast.Expr(id) {
+						ixRoot = ast.Unparen(r)
+					}
+				}
+				if ix, isIx := ixRoot.(*ast.IndexExpr); isIx {
 					if se, isSel := ast.Unparen(ix.X).(*ast.SelectorExpr); isSel && se.Sel.Name == "Namespaces" && identObj(info, se.X) == env {
 						if iv := identObj(info, ix.Index); iv != nil && fullIndexLoop(info, d.Body, iv, se, ce) {
 							o = env
@@ -7983,13 +7990,31 @@ func ruleSchemaListsAndDistinguishes(c *core.Ctx) {
 		})
 		for _, b := range bodies {
 			ast.Inspect(b, func(nn ast.Node) bool {
-				cc, ok := nn.(*ast.CaseClause)
-				if !ok || len(cc.List) != 1 || types.ExprString(cc.List[0]) != "TypeDefinition" {
+				var clauseBody []ast.Stmt
+				var clausePos token.Pos
+				switch cc := nn.(type) {
+				case *ast.CaseClause:
+					if len(cc.List) != 1 || types.ExprString(cc.List[0]) != "TypeDefinition" {
+						return true
+					}
+					clauseBody, clausePos = cc.Body, cc.Pos()
+				case *ast.IfStmt:
+					// the if-form of the clause: `if def, ok := node.(TypeDefinition); ok [&& ...] { ... }`
+					as, ok := cc.Init.(*ast.AssignStmt)
+					if !ok || len(as.Lhs) != 2 || len(as.Rhs) != 1 {
+						return true
+					}
+					ta, ok := ast.Unparen(as.Rhs[0]).(*ast.TypeAssertExpr)
+					if !ok || ta.Type == nil || types.ExprString(ta.Type) != "TypeDefinition" || identObj(info, conjuncts(cc.Cond)[0]) != identObj(info, as.Lhs[1]) {
+						return true
+					}
+					clauseBody, clausePos = cc.Body.List, cc.Pos()
+				default:
 					return true
 				}
 				found = true
 				direct := false
-				for _, s := range cc.Body {
+				for _, s := range clauseBody {
 					if isDefSliceAppend(s) {
 						direct = true
 					}
@@ -8021,7 +8046,7 @@ func ruleSchemaListsAndDistinguishes(c *core.Ctx) {
 						}
 					}
 				}
-				c.Check(direct, rule5, "GetProtocolSchema/case TypeDefinition", cc.Pos(), "the definition is appended by a statement of the clause itself",
+				c.Check(direct, rule5, "GetProtocolSchema/case TypeDefinition", clausePos, "the definition is appended by a statement of the clause itself",
 					"the clause for TypeDefinition appends to the schema's types only inside a nested switch / assertion over the kind of definition: a kind without a case is visited (its children are listed) but is itself missing from the schema — changing it does not change the schema")
 				return true
 			})
